@@ -3,6 +3,7 @@
 From Coq Require Import String ZArith List Bool.
 From RV Require Import Base.Wire Base.Text Gen.Registry Tool.Registry Proofs.RegistryP.
 From RV Require Import Tool.Ini Proofs.IniP.
+From RV Require Import Gen.PioInventory Tool.NearMiss Proofs.NearMissP.
 Import ListNotations.
 Open Scope Z_scope.
 
@@ -159,3 +160,98 @@ Theorem C13_line_break_refuted :
   (exists lib, no_padding lib = true /\ ini_read (render w_avr w_uno w_com3 [lib]) = None).
 Proof. exact line_break_refuted. Qed.
 Print Assumptions C13_line_break_refuted.
+
+(* ======================================================================== near-miss names
+   A near-miss of a registered id b' under a normaliser k is a string b <> b' with k b = k b'.
+   normaliser 0 = _sanitize_env_name, 1 = ASCII case folding, 2 = str.strip(),
+   3 = separators dropped and case folded; each of them separates the registered ids (finite,
+   decided on the generated table).
+   validate_keyed k = validation through an index keyed by k(board) instead of the board id -
+   the shape of regression this round's seeded change has; it is NOT the code. *)
+
+(* the code refuses every near-miss, with the unknown-board error when the platform is known *)
+Theorem C13_near_miss_rejected : forall (c : Z) (pl b b' p' : text),
+  known_code c = true -> registered p' b' -> normaliser c b = normaliser c b' -> b <> b' ->
+  validate pl b = if tmem pl (map fst platforms) then Some UnsupportedBoard else Some UnsupportedPlatform.
+Proof. exact twin_rejected_generated. Qed.
+Print Assumptions C13_near_miss_rejected.
+
+Theorem C13_near_miss_never_registered : forall (c : Z) (b b' p' : text),
+  known_code c = true -> registered p' b' -> normaliser c b = normaliser c b' -> b <> b' ->
+  forall p, ~ registered p b.
+Proof. exact twin_never_registered. Qed.
+Print Assumptions C13_near_miss_never_registered.
+
+(* near-misses in platform position: a name that is not a listed platform is refused first *)
+Theorem C13_unknown_platform_rejected_first : forall pl b : text,
+  ~ In pl (map fst platforms) -> validate pl b = Some UnsupportedPlatform.
+Proof. exact unknown_platform_first. Qed.
+Print Assumptions C13_unknown_platform_rejected_first.
+
+(* for ANY tables that pass the translator's obligations and ANY normaliser separating the listed
+   ids: lookup by key accepts exactly the strings sharing a key with an id of that platform ... *)
+Theorem C13_keyed_validation_accepts : forall plats b2p (k : text -> text),
+  tables_ok plats b2p = true -> separates_registry k b2p = true ->
+  forall pl b, validate_keyed_in k plats b2p pl b = None <->
+               exists b', registered_in plats pl b' /\ k b' = k b.
+Proof. exact keyed_accepts. Qed.
+Print Assumptions C13_keyed_validation_accepts.
+
+(* ... hence it is exact if and only if no registered id has a twin *)
+Theorem C13_keyed_validation_exact_iff_no_twin : forall plats b2p (k : text -> text),
+  tables_ok plats b2p = true -> separates_registry k b2p = true ->
+  ((forall pl b, validate_keyed_in k plats b2p pl b = None <-> registered_in plats pl b) <->
+   (forall b b', In b' (board_ids b2p) -> k b = k b' -> b = b')).
+Proof. exact keyed_exact_iff_no_twin. Qed.
+Print Assumptions C13_keyed_validation_exact_iff_no_twin.
+
+(* every generated near-miss separates the code from the keyed variant: the harness measures with
+   the extracted [near_miss] how many of its cases do *)
+Theorem C13_near_miss_separates : forall (c : Z) (b : text),
+  known_code c = true -> near_miss (normaliser c) b = true ->
+  exists pl, validate_keyed (normaliser c) pl b = None /\ validate pl b = Some UnsupportedBoard.
+Proof. exact near_miss_separates_generated. Qed.
+Print Assumptions C13_near_miss_separates.
+
+(* the four keyed variants are inexact on the generated registry (witnesses: digispark_tiny, UNO,
+   " uno", NanoEvery) - why the near-miss classes have to be generated *)
+Theorem C13_keyed_validation_refuted :
+  (validate_keyed norm_env w_avr w_digi_us = None /\ ~ registered w_avr w_digi_us) /\
+  (validate_keyed norm_lower w_avr w_uno_up = None /\ ~ registered w_avr w_uno_up) /\
+  (validate_keyed norm_strip w_avr w_uno_pad = None /\ ~ registered w_avr w_uno_pad) /\
+  (validate_keyed norm_squash w_megaavr w_nanoevery = None /\ ~ registered w_megaavr w_nanoevery).
+Proof. exact keyed_refuted. Qed.
+Print Assumptions C13_keyed_validation_refuted.
+
+(* non-vacuity of the near-miss hypotheses *)
+Example C13_near_miss_nonvacuous :
+  near_miss norm_env w_digi_us = true /\ near_miss norm_lower w_uno_up = true /\
+  near_miss norm_strip w_uno_pad = true /\ near_miss norm_squash w_nanoevery = true /\
+  near_miss norm_env w_uno = false.
+Proof. exact twins_exist. Qed.
+Print Assumptions C13_near_miss_nonvacuous.
+
+(* write_project: a near-miss writes nothing; what is written names the board exactly as given *)
+Theorem C13_near_miss_writes_nothing : forall (c : Z) (pl b b' p' port : text) (libs : list text),
+  known_code c = true -> registered p' b' -> normaliser c b = normaliser c b' -> b <> b' ->
+  exists e, write_ini pl b port libs = inl e.
+Proof. exact twin_writes_nothing. Qed.
+Print Assumptions C13_near_miss_writes_nothing.
+
+Theorem C13_written_board_verbatim_partial : forall (pl b port : text) (libs : list text) (t : text),
+  write_ini pl b port libs = inr t -> value_ok port = true -> forallb lib_ok libs = true ->
+  registered pl b /\
+  exists sec opts, ini_read t = Some [(sec, opts)] /\
+                   tlookup k_board opts = Some b /\ tlookup k_platform opts = Some pl.
+Proof. exact written_board_verbatim. Qed.
+Print Assumptions C13_written_board_verbatim_partial.
+
+(* source inventory, regenerated from pio.py on every run: validate_platform_board reads
+   SUPPORTED_PLATFORMS and BOARD_TO_PLATFORM only; write_project reads validate_platform_board,
+   _format_lib_section, _sanitize_env_name, PIO_INI only (and does call the validator); the helpers
+   read nothing but [re]; the module holds no data besides the board sets listed in SUPPORTED_PLATFORMS, that table, its inverse
+   and the template *)
+Theorem C13_source_inventory :
+  validate_reads_ok = true /\ write_project_reads_ok = true /\ helpers_read_ok = true /\ module_data_ok = true.
+Proof. exact inventory_ok. Qed.
+Print Assumptions C13_source_inventory.
